@@ -7,6 +7,7 @@ import (
 
 	"github.com/samaritan-proxy/samaritan/verifrt/sched"
 	"github.com/samaritan-proxy/samaritan/verifrt/sim/cluster"
+	"github.com/samaritan-proxy/samaritan/verifrt/sim/resp"
 	"github.com/samaritan-proxy/samaritan/verifrt/vrand"
 )
 
@@ -80,5 +81,80 @@ func init() {
 			b = sched.Bounds{P: 1, F: 1}
 		}
 		return sched.Config{Bounds: b, Iterative: true, MaxSteps: 200000}, c12redirectLearningBody
+	}})
+}
+
+// ---------------------------------------------------------------------------
+// C12 (H): the table the routing uses must be the one the cluster reports, for every way a node can be listed.
+//
+// history   two masters with two slot groups each; one of: (a) the other nodes list m1 as suspected ("fail?", it
+//           is alive and owns its slots) from the start; (b) m1 comes back on another address with the same node
+//           id, then the periodic refresh; (c) m1 is listed suspected after the proxy learned the layout, then the
+//           periodic refresh - under both rotations of the refresh's host pick; then every key is read and written
+// oracle    every command arrives first at the node that owns its slot (at its current address), no node answers
+//           MOVED, replies are the single-server replies
+// ---------------------------------------------------------------------------
+
+func c12reportedTableBody() {
+	vrand.Fair()
+	if sched.Choose(sched.ClsInput, 2, "rotation of the random host picks") == 1 {
+		vrand.Intn(2)
+	}
+	hist := []string{"suspected-from-start", "owner-changes-address", "suspected-later"}[sched.Choose(sched.ClsInput, 3, "history")]
+	cl := cluster.New(2, 0, 4)
+	m0, m1 := cl.Masters()[0], cl.Masters()[1]
+	if hist == "suspected-from-start" {
+		m1.Suspected = true
+	}
+	s := vfStartStack(cl, vfSvcConfig(0, nil, 0))
+	c := s.NewClient("c0")
+	var keys []string
+	for g := 0; g < 4; g++ {
+		keys = append(keys, cl.KeyInGroup("k", g, 0), cl.KeyInGroup("x}{y", g, 1))
+	}
+	switch hist {
+	case "owner-changes-address":
+		m1.Stop()
+		m1.Addr = "10.0.9.9:6379"
+		m1.Up()
+		sched.WaitQuiescent()
+		sched.AdvanceTime(int64(slotsRefFreq) + 1)
+		sched.WaitQuiescent()
+		s.RefreshRound()
+	case "suspected-later":
+		m1.Suspected = true
+		sched.AdvanceTime(int64(slotsRefFreq) + 1)
+		sched.WaitQuiescent()
+		s.RefreshRound()
+	}
+	_ = m0
+	for round := 0; round < 2; round++ {
+		for _, k := range keys {
+			for _, args := range [][]string{{"SET", k, "v"}, {"GET", k}} {
+				mark := len(cl.Log)
+				v, err := c.Do(args...)
+				sched.WaitQuiescent()
+				want := refExec(s.ref, args)
+				if err != nil || !resp.Equal(v, want) {
+					sched.Fail("wrong-reply / "+hist, fmt.Sprintf("%v: proxy replied %s (%v), a single server replies %s", args, v, err, want))
+					return
+				}
+				if r := cl.Redirects(mark); r > 0 {
+					sched.Fail("key-sent-to-a-node-that-answers-MOVED / "+hist, fmt.Sprintf("%v (owner %s at %s): %d redirection(s)", args, cl.OwnerOfKey(k).ID, cl.OwnerOfKey(k).Addr, r))
+					return
+				}
+			}
+		}
+	}
+	sched.SetOutcome(hist)
+}
+
+func init() {
+	sched.Register(&sched.Scenario{Name: "C12/reported-table", Setup: func(tier string) (sched.Config, func()) {
+		b := sched.Bounds{}
+		if tier == "thorough" {
+			b = sched.Bounds{P: 1, F: 1}
+		}
+		return sched.Config{Bounds: b, Iterative: true, MaxSteps: 400000}, c12reportedTableBody
 	}})
 }
